@@ -321,7 +321,7 @@ pub fn long_partner(r: &mut Rng, long: &Operand, table: &[Iv]) -> Option<Operand
     let n = long.b.0.len() as u64;
     let t = match r.below(9) {
         0 => "*".to_string(),
-        1 => format!(">=1.0.{} <1.0.{}", n / 3, n - 2),
+        1 => format!(">=1.0.{} <1.0.{}", n / 3, n.saturating_sub(2).max(n / 3 + 1)),
         2 => format!("1.0.{}", n.saturating_sub(1 + r.below(6) as u64)),
         3 => format!("<1.0.3 || >1.0.{}", n.saturating_sub(6)),
         4 => format!(">={}.0.0 <{}.5.0 || {}.5.0", n / 2, n, n / 4),
